@@ -54,6 +54,11 @@ RUNTIME["C16"] = (["single", "array", "nc", "enumf", "custom", "mixed", "base", 
                   "(group, case) pairs whose complete monitored workload (getters, with_/set_, array indices in and out of range, histories, builder, constants, Debug) produced identical observation digests under every build profile with no panic other than for an out-of-range array index",
                   ["w=S", "|full|", "|top|", "s128|", "s128arb|", "range[]", "list"])
 
+GLUE_OWNERS = {"glue-get": ("C01", "C04", "C05", "C08"), "glue-put": ("C02", "C04", "C05", "C08"), "glue-build": ("C13",), "glue-debug": ("C19",),
+               "glue-consts": ("C06",), "glue-core": ("C06",)}
+GLUE_WHAT = {"glue-get": "calling a getter and converting its result", "glue-put": "calling with_/set_ with a value of the field type", "glue-build": "the builder chain in declaration order",
+             "glue-debug": "formatting with {:?}", "glue-consts": "ZERO / DEFAULT / Default::default() / new() / Copy / size_of", "glue-core": "new_with_raw_value / raw_value"}
+
 TECH = "reference-model monitor at the API boundary of the generated code"
 
 
@@ -259,9 +264,20 @@ def runtime_check(prop, tier, seed, groups=None, extra_args=()):
             cov["violations_not_listed"] = cov.get("violations_not_listed", 0) + r["stats"]["violation_count"] - len(r["stats"]["violations"])
         if r.get("worker_threads_crashed"):
             raise Inconclusive("a worker thread of the runner crashed (%s/%s)" % (r["group"], r["profile"]))
+    # a generated case whose *usage glue* no longer compiles: the documented API of a rule-valid declaration is unusable.
+    # (errors inside the declaration itself belong to C09/C10; these are errors in the one-line calls of the generated methods)
+    seen_glue = set()
+    for dct in dropped_all:
+        if prop in GLUE_OWNERS.get(dct.get("part"), ()) and (dct["case"], dct["part"]) not in seen_glue:
+            seen_glue.add((dct["case"], dct["part"]))
+            c = by_id.get(dct["case"], {})
+            rec = dict(kind="api-unusable", what="the documented use of a generated operation no longer compiles (%s)" % GLUE_WHAT.get(dct["part"], dct["part"]), case=dct["case"],
+                       decl=emit.decl_text(c)[:3000] if c else "", observed="%s: %s" % (dct.get("code"), dct.get("message", "")[:300]), expected="compiles", tier=tier, seed=seed,
+                       group=next((g for g in groups if any(x["id"] == dct["case"] for x in catalog.family(g, tier, seed))), groups[0]), profile=profiles[0], replay_kind="runtime-build")
+            res.violations.append((None, rec))
     # coverage floor
     missing = [s for s in floor if not any(s in k for k in cov["shape_classes"])]
-    total_viol = sum(r["stats"]["violation_count"] for r in reports) + sum(1 for _, rec in res.violations if rec.get("replay_kind") in ("digest", "miri"))
+    total_viol = sum(r["stats"]["violation_count"] for r in reports) + sum(1 for _, rec in res.violations if rec.get("replay_kind") in ("digest", "miri", "runtime-build"))
     write_evidence(prop, tier, seed, cov, time.time() - t0, total_viol, ASSUME_RUNTIME)
     if total_viol == 0:
         if cov["evaluations"] == 0 or cov["distinct_nontrivial"] < 2:
